@@ -406,15 +406,19 @@ class TransformationGraph(Graph):
         all transitive dependencies will also be added."""
         self.add((a, TF["from"], b))
         if self.with_dependencies:
-
-            self.add((a, TF.depends, b))
+            # Keep `depends` equal to the transitive closure of `from`: every
+            # node that reaches `a` (and `a` itself) now also reaches `b` and
+            # everything `b` reaches.
             if recursive:
-                for bdep in self.transitive_objects(b, TF["from"]):
-                    assert bdep
-                    self.add((a, TF.depends, bdep))
+                targets = set(self.transitive_objects(b, TF["from"]))
             else:
-                for bdep in self.objects(b, TF.depends):
-                    self.add((a, TF.depends, bdep))
+                targets = set(self.objects(b, TF.depends))
+            targets.add(b)
+            sources = set(self.subjects(TF.depends, a))
+            sources.add(a)
+            for s in sources:
+                for t in targets:
+                    self.add((s, TF.depends, t))
 
     def add_workflow(self, wf: Workflow) -> dict[Node, Node]:
         """
